@@ -37,6 +37,7 @@ func (m *Model) zsetForWrite(tk string, ts int64) *zsetEnt {
 	m.zsetDrop(tk)
 	e := &zsetEnt{m: map[string]float64{}}
 	m.zset[tk] = e
+	m.noteGen("zset", tk, ts)
 	return e
 }
 
@@ -274,6 +275,7 @@ func (m *Model) applyZSet(o Op) Exp {
 				n++
 			}
 			e.m[mb] = s
+			m.noteAdd("zset", tk, mb)
 		}
 		return Exp{R: rInt(n)}
 	case "zrem":
@@ -320,6 +322,7 @@ func (m *Model) applyZSet(o Op) Exp {
 		}
 		e := m.zsetForWrite(tk, o.Ts)
 		e.m[o.A[1]] = ns
+		m.noteAdd("zset", tk, o.A[1])
 		cls := ""
 		if had && ns == cur {
 			cls = "same-score" // the increment leaves the score of an existing member unchanged
